@@ -13,8 +13,9 @@ Definition f5_req : req :=
 Definition summary (w : item -> Z) (sz : sizer) (o : option (list req)) :=
   option_map (map (fun r => (rcached r, payload_size w sz (rp r), length (items_of (rp r))))) o.
 
+(* regression of the former C04-OVERSIZED-REMAINDER witness: the 70-byte record now leaves alone *)
 Lemma oversized_remainder_witness :
-  summary w_unit Bytes (merge_split w_unit Bytes 30 f5_req None) = Some [(101, 101, 2%nat)].
+  summary w_unit Bytes (merge_split w_unit Bytes 30 f5_req None) = Some [(-1, 96, 1%nat); (29, 29, 1%nat)].
 Proof. vm_compute. reflexivity. Qed.
 
 (* the same input is split as soon as the record fits *)
@@ -29,7 +30,7 @@ Definition prof_req : req :=
               [ {| sctx := 1; shdr := 10; sitems := [ {| iid := 1; iraw := 40; icnt := 5 |}; {| iid := 2; iraw := 40; icnt := 1 |} ] |} ] |} ] |}.
 
 Lemma prof_oversized_witness :
-  summary w_samples Items (merge_split w_samples Items 3 prof_req None) = Some [(6, 6, 2%nat)].
+  summary w_samples Items (merge_split w_samples Items 3 prof_req None) = Some [(-1, 5, 1%nat); (1, 1, 1%nat)].
 Proof. vm_compute. reflexivity. Qed.
 
 (* profiles of 2, 2 and 1 samples, max_size 2: three batches within the bound, exact memo *)
@@ -78,5 +79,5 @@ Definition foreign_evs : list tbev :=
   [(0,[],0);(0,[1;2],0);(0,[3;4;5;6;7],0);(2,[0],1);(3,[],0);(2,[1],0);(2,[2],0)].
 
 Lemma foreign_error_witness :
-  model_bat 2 3 3 foreign_evs = ([[1;2];[3;4;5];[6;7]], [(0,1);(1,1);(2,1)]).
+  model_bat 2 3 3 foreign_evs = ([[1;2];[3;4;5];[6;7]], [(0,1);(1,1);(2,0)]).
 Proof. vm_compute. reflexivity. Qed.
